@@ -209,7 +209,17 @@ def build_forecaster(spec):
         from sktime.forecasting.model_selection import ForecastingGridSearchCV, SlidingWindowSplitter
 
         cv = SlidingWindowSplitter(fh=spec.get("cv_fh", 1), window_length=spec.get("cv_wl", 6), step_length=spec.get("cv_step", 2))
-        return ForecastingGridSearchCV(build_forecaster(spec["base"]), cv=cv, param_grid=spec["grid"], refit=True)
+        scoring = None
+        if spec.get("scoring"):
+            import sktime.performance_metrics.forecasting as _m
+
+            scoring = {"mae": _m.MeanAbsoluteError, "mse": _m.MeanSquaredError}[spec["scoring"]]()
+        if spec.get("search") == "random":
+            from sktime.forecasting.model_selection import ForecastingRandomizedSearchCV
+
+            return ForecastingRandomizedSearchCV(build_forecaster(spec["base"]), cv=cv, param_distributions=spec["grid"], n_iter=2,
+                                                 random_state=3, scoring=scoring, refit=True)
+        return ForecastingGridSearchCV(build_forecaster(spec["base"]), cv=cv, param_grid=spec["grid"], scoring=scoring, refit=True)
     if k == "recording":
         return doubles.recording_forecaster_class()(tag=spec.get("tag", 0))
     raise ValueError(k)
@@ -290,7 +300,8 @@ def describe(spec):
     if k == "pipeline":
         return "pipeline(%s->%s)" % ("+".join(t["kind"] for t in spec["transformers"]), describe(spec["forecaster"]))
     if k == "gridsearch":
-        return "gridsearch(%s)" % describe(spec["base"])
+        return "%s%s(%s)" % ("randomsearch" if spec.get("search") == "random" else "gridsearch",
+                             "[%s]" % spec["scoring"] if spec.get("scoring") else "", describe(spec["base"]))
     if k == "reduce":
         return "reduce-%s" % spec["strategy"]
     if k == "naive":
@@ -413,6 +424,10 @@ FORECASTER_ENUM = [
     {"kind": "pipeline", "transformers": [{"kind": "log"}], "forecaster": _T},
     {"kind": "multiplex", "members": [_N, _T], "selected": 1}, {"kind": "stack", "members": [_N, _T], "reg": "linear"},
     {"kind": "gridsearch", "base": _N, "grid": {"strategy": ["last", "mean", "drift"]}, "cv_wl": 6, "cv_step": 2, "cv_fh": 1},
+    {"kind": "gridsearch", "base": _N, "grid": {"strategy": ["last", "mean", "drift"]}, "cv_wl": 6, "cv_step": 2, "cv_fh": 1, "scoring": "mae"},
+    {"kind": "gridsearch", "base": _N, "grid": {"strategy": ["last", "mean", "drift"]}, "cv_wl": 6, "cv_step": 2, "cv_fh": 1, "search": "random"},
+    {"kind": "gridsearch", "base": _N, "grid": {"strategy": ["last", "mean", "drift"]}, "cv_wl": 6, "cv_step": 2, "cv_fh": 1, "search": "random",
+     "scoring": "mse"},
 ]
 
 
@@ -434,8 +449,10 @@ def composite_specs(inner, allow_grid=True):
     ]
     if allow_grid:
         opts.append(st.builds(
-            lambda: {"kind": "gridsearch", "base": {"kind": "naive", "strategy": "last", "sp": 1},
-                     "grid": {"strategy": ["last", "mean", "drift"]}, "cv_wl": 6, "cv_step": 2, "cv_fh": 1}))
+            lambda sc, se: {"kind": "gridsearch", "base": {"kind": "naive", "strategy": "last", "sp": 1},
+                            "grid": {"strategy": ["last", "mean", "drift"]}, "cv_wl": 6, "cv_step": 2, "cv_fh": 1,
+                            **({"scoring": sc} if sc else {}), **({"search": se} if se else {})},
+            st.sampled_from([None, None, "mae", "mse"]), st.sampled_from([None, None, "random"])))
     return st.one_of(*opts)
 
 
